@@ -533,6 +533,12 @@ func TestC14(t *testing.T) {
 				fmt.Fprintf(&sb, "// :convergen\ntype Third interface {\n\t// :recv %s\n\tConvertToOther(*HC) *HA\n\tConvertPlain1(*HC) *HB\n}\n\ntype HC struct{ X int }\n\n", rv)
 				methods = 5
 			}
+		case 6:
+			// valid: additional arguments whose types reach a self-referential struct (HA.P is a *HA)
+			sb.WriteString(c14Head)
+			sb.WriteString("type Convergen interface {\n\tConvertPlain0(*HA, *HA) *HB\n\tConvertPlain1(*HA, []map[string]*HA, func(HA) []HA) *HB\n\t// :style arg\n\tConvertPlain2(*HA, HA) *HB\n}\n\n")
+			methods = 3
+			rec.Class("hostile:additional-arguments-of-self-referential-types")
 		case 5:
 			// a method whose name an ordinary function of the package already has: generating it gives a package that does
 			// not compile (C01's matter) and refusing it is fine, but reporting success without the function is not
